@@ -327,6 +327,11 @@ def s3(chk: Check, proj: Project, m) -> None:
     loop = next((x for x in body_walk(ga) if isinstance(x, ast.For)), None)
     okl = loop is not None and norm(loop.iter) == f"{params(ga)[0]}.mro()"
     chk.ob("S3", "component_media:_get_comp_cls_attr:mro-walk", m.loc(loop) if loop is not None else m.loc(ga), okl, "attributes are looked up along the MRO")
+    if loop is not None:
+        brk = [x for x in ast.walk(loop) if isinstance(x, ast.Break) and next((a for a in ancestors(x) if isinstance(a, (ast.For, ast.While))), None) is loop]
+        chk.ob("S3", "component_media:_get_comp_cls_attr:mro-walk-complete", m.loc(brk[0]) if brk else m.loc(loop), not brk,
+               "the MRO walk has no break: classes without a media record are skipped, the walk goes on behind them" if not brk else
+               f"`{short(enclosing_stmt(brk[0]))}` ends the MRO walk at the first class without a media record: with a plain mixin in front of a component base (class Child(HelperMixin, Base)) `.template` / `.js` / `.css` are None although Base defines them")
     rm = [c for c in calls(ga, "_resolve_media")]
     okr = bool(rm) and norm(rm[0].args[0]) == norm(loop.target) if loop is not None and rm else False
     chk.ob("S3", "component_media:_get_comp_cls_attr:resolves-the-base", m.loc(rm[0]) if rm else m.loc(ga), okr, "each class's files are resolved relative to THAT class")
